@@ -101,6 +101,13 @@ Theorem C07_constants_match_source : Consts.DefaultMaxRetryAttempts = Buffer.Def
 Proof. reflexivity. Qed.
 Print Assumptions C07_constants_match_source.
 
+(* a hijack attempt that the connection refuses is no event at all: the attempt goes on as an ordinary one (its response is
+   buffered, the retry expression is consulted, the final attempt is delivered) *)
+Theorem C07_refused_hijack_is_an_ordinary_attempt : forall a b rq s,
+  dec_event true 6 a b = EFlush /\ ev_step rq s EFlush = s /\ dec_event false 6 a b = EHijack.
+Proof. intros. repeat split. Qed.
+Print Assumptions C07_refused_hijack_is_an_ordinary_attempt.
+
 (* non-vacuity: retry on  Attempts() < 3 && (IsNetworkError() || ResponseCode() == 503); attempts answer 502 (20 bytes,
    spilled over the 8-byte threshold), 503 (30 bytes), then header 2:=4 and 12 bytes with no status: the client sees
    200, that header, those 12 bytes; 3 invocations; no temporary file left *)
